@@ -686,6 +686,29 @@ def list_builtin(ex, fr, c, args, dty):
             if op == "clear":
                 _wr(ex, args[0], ListV((), v.ty))
                 return UNIT
+    m = re.match(r"^(?:std::vec::|alloc::vec::)?Vec::<(.*)>::(insert|remove|pop|truncate)$", c)
+    if m and isinstance(args[0], RefV):
+        v = deref(ex, args[0])
+        op = m.group(2)
+        if isinstance(v, ListV) and (op == "pop" or (isinstance(args[1], IntV) and isinstance(args[1].t, int))):
+            n = len(v.items)
+            if op == "pop":
+                _wr(ex, args[0], ListV(v.items[:-1], v.ty))
+                return mk_option(n > 0, v.items[-1] if n else None, dty)
+            i = args[1].t
+            if op == "insert":
+                if i > n:
+                    raise Panic("insertion index out of bounds")
+                _wr(ex, args[0], ListV(v.items[:i] + (args[2],) + v.items[i:], v.ty))
+                return UNIT
+            if op == "remove":
+                if i >= n:
+                    raise Panic("removal index out of bounds")
+                _wr(ex, args[0], ListV(v.items[:i] + v.items[i + 1:], v.ty))
+                return v.items[i]
+            if op == "truncate":
+                _wr(ex, args[0], ListV(v.items[:i], v.ty))
+                return UNIT
     m = re.match(r"^<(?:std::vec::|alloc::vec::)?Vec<(.*)> as (?:std::ops::|core::ops::)?(Deref|DerefMut)>::deref(_mut)?$", c)
     if m and isinstance(args[0], RefV) and isinstance(deref(ex, args[0]), ListV):
         return args[0]
